@@ -4,12 +4,12 @@ from . import accept, provenance
 
 def run(ctx):
     accept.rule_no_extension_only_stable(ctx)
-    accept.rule_stable_unsat(ctx)
+    accept.rule_stable_unsat(ctx, 'extension')
     provenance.rule_argument_provenance(ctx)
     provenance.rule_ownership(ctx)
     from . import cli
-    cli.rule_dispatch(ctx)
-    provenance.rule_fresh_solver_per_encoding(ctx)
+    cli.rule_dispatch(ctx, 'extension')
+    provenance.rule_fresh_solver_per_encoding(ctx, 'extension')
     accept.rule_stage_layering(ctx, 'extension')
     ctx.assume("rustc's MIR / borrow checker (returned &Argument cannot point into a local component framework: witness W3, thorough tier)")
     return (
